@@ -568,6 +568,9 @@ func C16(r *vlib.Run) {
 	var gens, stale []c16Case
 	for i := 0; i < n; i++ {
 		p := idl.Generate(rng.Fork("p"), c16Opts(rng))
+		if i%2 == 1 {
+			c16AddPassThrough(p)
+		}
 		sub := filepath.Join(dir, fmt.Sprintf("p%d", i))
 		texts, err := harness.WriteProgram(sub, p, idl.PlainLayout())
 		if err != nil {
@@ -727,4 +730,25 @@ func c16HasStaleInclude(p *idl.Program) bool {
 		}
 	}
 	return false
+}
+
+// c16AddPassThrough adds an include chain main -> zzpass -> zzleaf in which the middle file holds nothing
+// that is always kept and nothing anybody refers to, while the leaf holds a constant, a typedef, an enum and
+// a preserved struct: the leaf's definitions must survive, so both includes must.
+func c16AddPassThrough(p *idl.Program) {
+	leaf := &idl.File{Path: "zzleaf.thrift", Namespaces: []*idl.Namespace{{Lang: "go", Name: "vf.zzleaf"}}}
+	i32 := func() *idl.Type { return &idl.Type{Name: "i32"} }
+	leaf.Defs = []*idl.Def{
+		{Kind: idl.KConst, Name: "ZZ_LIMIT", File: leaf, Type: i32(), Value: &idl.Value{Kind: idl.VInt, Int: 7}},
+		{Kind: idl.KTypedef, Name: "ZzAlias", File: leaf, Type: &idl.Type{Name: "i64"}},
+		{Kind: idl.KEnum, Name: "ZzEnum", File: leaf, EnumVals: []*idl.EnumVal{{Name: "ZZ_A", Explicit: true, Value: 1}}},
+		{Kind: idl.KStruct, Name: "ZzKeep", File: leaf, Preserve: true, Fields: []*idl.Field{{ID: 1, ExplicitID: true, Type: i32(), Name: "a"}}},
+		{Kind: idl.KStruct, Name: "ZzGone", File: leaf, Fields: []*idl.Field{{ID: 1, ExplicitID: true, Type: i32(), Name: "a"}}},
+	}
+	pass := &idl.File{Path: "zzpass.thrift", Namespaces: []*idl.Namespace{{Lang: "go", Name: "vf.zzpass"}}}
+	pass.Defs = []*idl.Def{{Kind: idl.KStruct, Name: "ZzPass", File: pass, Fields: []*idl.Field{{ID: 1, ExplicitID: true, Type: i32(), Name: "a"}}}}
+	pass.Includes = []*idl.Include{{File: leaf, Path: "zzleaf.thrift"}}
+	main := p.Main()
+	main.Includes = append(main.Includes, &idl.Include{File: pass, Path: "zzpass.thrift"})
+	p.Files = append(p.Files, pass, leaf)
 }
